@@ -72,8 +72,38 @@ def concrete_replay(shape, model, timeout=120, mode=None):
         return {'error': f'unparsable replay output: {e}: {p.stdout[-500:]!r} {p.stderr[-1500:]!r}'}
 
 
+_STARTED = None
+
+
+def stuck_result(shape, opts, waited):
+    """the worker of this shape was killed because it did not return: decide by running the real code"""
+    out = {'shape': shape.sid, 'describe': None, 'harness_errors': [], 'confirmed': [], 'known_hits': [], 'validated': 0,
+           'cli_validated': 0, 'paths': 0, 'queries': 0, 'solver_s': 0.0, 'obligations': 0, 'discharged': 0, 'outcomes': {},
+           'functions': [], 'decisions': 0, 'shape_wall_s': round(waited, 1),
+           'inconclusive': f'no return within {waited:.0f}s (stuck inside one call)'}
+    try:
+        out['describe'] = shape.describe()
+        shape.setup(False)
+        model = {n: (s.lo if s.lo is not None else 0) for n, s in shape.case.symbols().items()} if hasattr(shape, 'case') else {}
+        shape.teardown()
+        rep = concrete_replay(shape, model, timeout=opts.get('nonterm_timeout', 40), mode='terminate')
+        if rep.get('timeout') and getattr(shape, 'nonterm_is_violation', False):
+            v = {'obligation': f'{opts["prop"]}.assembly_terminates', 'model': model, 'outcome': 'nonterminating', 'path': -1,
+                 'shape_id': shape.sid, 'known': None, 'real_outcome': {'kind': 'timeout'}}
+            v['replay'] = save_replay(opts['prop'], shape, v, 300)
+            out['confirmed'].append(v)
+            out['inconclusive'] = None
+        elif rep.get('timeout'):
+            out['harness_errors'].append(f'the real run does not terminate within {opts.get("nonterm_timeout", 40)}s either')
+    except Exception as e:  # noqa
+        out['harness_errors'].append('stuck shape: ' + ''.join(traceback.format_exception(e))[-1500:])
+    return out
+
+
 def run_shape(args):
     shape, opts = args
+    if _STARTED is not None:
+        _STARTED.put((shape.sid, os.getpid(), time.time()))
     import z3
     from . import engine as E
     from .harness import SymEnv
@@ -307,21 +337,44 @@ def _run_property(mod, tier, seed, prop, t0, known, shapes, budget, opts, nproc,
         import bespokeasm.assembler.engine  # noqa
         import bespokeasm.assembler.model  # noqa
         ctxm = mp.get_context('fork')
+        global _STARTED
+        _STARTED = ctxm.SimpleQueue()           # workers announce (shape id, pid, time) when they take a shape
+        by_sid = {s.sid: s for s in shapes}
+        started, finished = {}, set()
+        stuck_after = opts.get('shape_wall_s', budget) * 1.2 + 20
         with ctxm.Pool(min(nproc, max(1, len(shapes))), maxtasksperchild=1) as pool:
             it = pool.imap_unordered(run_shape, [(s, opts) for s in shapes], chunksize=1)
             done = 0
             while done < len(shapes):
                 left = budget - (time.time() - t0)
-                try:
-                    r = it.next(timeout=max(1.0, left))
-                except mp.TimeoutError:
+                if left <= 0:
                     unexplored = len(shapes) - done
                     pool.terminate()
                     break
+                try:
+                    r = it.next(timeout=min(5.0, max(1.0, left)))
+                    results.append(r)
+                    finished.add(r['shape'])
+                    done += 1
+                except mp.TimeoutError:
+                    pass
                 except StopIteration:
                     break
-                results.append(r)
-                done += 1
+                # a worker that does not come back: the code under analysis is stuck inside one call (e.g. a regular
+                # expression) where no path budget can be checked
+                while not _STARTED.empty():
+                    sid, pid, ts = _STARTED.get()
+                    started[sid] = (pid, ts)
+                for sid, (pid, ts) in list(started.items()):
+                    if sid in finished or time.time() - ts < stuck_after:
+                        continue
+                    try:
+                        os.kill(pid, 9)
+                    except OSError:
+                        pass
+                    finished.add(sid)
+                    done += 1
+                    results.append(stuck_result(by_sid[sid], opts, time.time() - ts))
     extra_errors = []
     if hasattr(mod, 'extra_checks'):
         try:
